@@ -52,13 +52,14 @@ def report(R, viol, cases, seen):
 def run(R):
     R.trusted += [
         "translator harness/cmd/gen_panics (go/ast, syntactic: explicit panic, Must*, Quo/Div/Mod and integer / % with a non-literal divisor, .Sub, coin constructors, unchecked type assertions, non-literal index; static calls followed by name 3 levels below abci.go / module.go Begin/EndBlock / proposal handlers); map-of-pointer and nil-result dereferences are NOT listed",
-        "the audit reasons pinned in Properties/C06.v (audit_table) are reviewed claims, not theorems; a new site (function, kind or one more of a kind) breaks C06_panic_sites_accounted",
+        "the audit reasons pinned in Properties/C06.v (audit_table) are reviewed claims, not theorems; a new site (function, kind or one more of a kind) breaks C06_panic_sites_accounted, and a CHANGED audited function (fingerprint of its comment/whitespace-normalised declaration, pinned next to the reason; trees with the pending fix patches applied are pinned too) breaks C06_audited_functions_unchanged and triggers the widened search",
+        "tree-read flags of gen_panics (spend_endblock_guarded, gov_*_quorum_error_panics, withdraw/claim_sub_unchecked, ubi_amount_cast_int64) select the model branch; they are syntactic patterns, validated by the ABCI-level correspondence",
         "harness/cmd/c06 observers: recover() around BeginBlock/DeliverTx/EndBlock/Commit, panic site = first github.com/KiraCore/sekai frame under the panic, message class table in drive.go",
         "no axioms: every theorem of Properties/C06.v is closed under the global context",
     ]
     R.assume += [
         "PARTIAL: panics inside cosmos-sdk / CometBFT / IAVL / the Go runtime (out of memory) are outside the model; DeliverTx panics recovered by baseapp (failed tx) are not violations",
-        "models cover: gov quorum (processProposal/processPoll), spending EndBlocker, Withdraw/Distribution enactment, ApplyProposal/dry-run filter, staking validator-set updates, fee-collector payouts, upgrade halt; the other begin/end-block code is covered by the site audit and the random ABCI histories only",
+        "models cover: gov quorum (processProposal/processPoll), spending EndBlocker, Withdraw/Distribution enactment, ApplyProposal/dry-run filter, staking validator-set updates, fee-collector payouts and the per-denom reward credit, UBI mint, upgrade halt; collectives, layer2, basket, slashing/evidence, recovery and the reward path are driven by dedicated ABCI histories (every vote pattern run past the enactment end, dApp bootstrap, slash proposal, address rotation, staking rewards over many blocks) and the site audit, without a Coq model of their own",
         "amounts < 2^190, weights < 2^150, voters < 2^64 (the 315-bit Dec overflow is excluded by these bounds)",
         "the harness delivers commit votes for the genesis validators only; validator-set consistency with CometBFT is C05's",
     ]
@@ -66,7 +67,7 @@ def run(R):
     R.coq_files(FILES)
     R.coq_property()
     R.audit()
-    n = 110 if R.tier == "quick" else 2500
+    n = 130 if R.tier == "quick" else 2500
     obs = observe(R, n)
     total = 0
     seen = {}
